@@ -14,6 +14,11 @@ def run(chk, tier):
                 'same-named continuations and never fabricates a value; Continuation::report maps each unanswered continuation to its '
                 'error through induce_panic; constructors pass the documented fallback mode, which is never written afterwards; the '
                 'match counter is untouched on every path that selects no pattern.')
+    from xpand import rules as X
+    chk.explain('Generated half (R07.5, XPAND): on the generated trait grammar every method has an Unmock arm exactly when a real function is '
+                'registered at its position and that arm calls that function; a default-impl arm exactly when it is provided; every other '
+                'continuation is reported, never answered with a made-up value.')
+    X.check_traits(chk, tier, chk.seed, {'C07'})
     for cfg in configs(tier, thorough=('std', 'mocks', 'nostd-spin')):
         F = load(chk, cfg)
         fn, paths, rows = E.eval_dyn_table(chk, F, 'R07.1', cfg)
